@@ -1022,6 +1022,11 @@ func (s *scanner) ScanBytes(accept func(b byte) bool) error {
 		if err == io.EOF && !empty {
 			return nil
 		}
+		if err != nil && err != io.EOF {
+			// a latched read error: refill leaves the (fully consumed) buffer
+			// untouched, so going round again would spin forever
+			return err
+		}
 		if s.used == 0 {
 			if err == nil {
 				err = io.EOF
